@@ -696,6 +696,10 @@ func ruleErrorProvenance(c *core.Ctx) {
 			"(gopkg.in/yaml.v3.Node).DecodeWithOptions", "(gopkg.in/yaml.v3.Node).Decode", "(gopkg.in/yaml.v3.Decoder).Decode":
 			return true
 		}
+		// an error of the file system (*fs.PathError) names the file it is about and has no line to name
+		if g.Pkg() != nil && (g.Pkg().Path() == "os" || g.Pkg().Path() == "path/filepath" || g.Pkg().Path() == "io/fs") {
+			return true
+		}
 		// every error-returning function of yaml.go is itself an obligation of this rule (below), so an
 		// error received from one of them is positioned if the rule holds there
 		return inYaml(g) && lastResultIsError(g.Type().(*types.Signature)) && g.Name() != "ParseYamlInDir" && g.Name() != "ParsePackageContents"
